@@ -105,7 +105,7 @@ func (l *sockLane) exec(c *RPCCase) (*outcome, error) {
 			time.Sleep(200 * time.Microsecond)
 		}
 	}
-	return &outcome{Events: sc.snapshot(), Transcript: sb.String()}, nil
+	return &outcome{Events: sc.snapshot(), Transcript: sb.String(), NMsgs: -1}, nil
 }
 
 var rePanicServing = regexp.MustCompile(`panic serving [^ ]+: ([^\n]*)`)
